@@ -22,6 +22,12 @@ type Prop struct {
 
 var props = map[string]*Prop{}
 
+// genTier is the tier scenarios are being generated for ("thorough" = longer histories, deeper schemas, bigger
+// documents). Set before generating; a scenario stays a pure function of (seed, tier, index).
+var genTier = "quick"
+
+func deep() bool { return genTier == "thorough" }
+
 func register(p *Prop) { props[p.ID] = p }
 
 var commonReal = []string{
